@@ -238,8 +238,21 @@ impl<'a> BTreeReader<'a> {
 
             match header.page_type() {
                 PageType::BTreeLeaf => {
+                    // an emptied leftmost leaf does not end the enumeration: skip to the first
+                    // leaf that holds an entry
                     let leaf = LeafNode::from_page(page_data)?;
-                    let exhausted = leaf.cell_count() == 0;
+                    let mut cell_count = leaf.cell_count() as usize;
+                    let mut next_leaf = leaf.next_leaf();
+                    let mut hops = 0u32;
+                    while cell_count == 0 && next_leaf != 0 && next_leaf < self.storage.page_count() {
+                        hops += 1;
+                        ensure!(hops <= self.storage.page_count(), "leaf chain does not end (cycle at page {})", current_page);
+                        current_page = next_leaf;
+                        let next = LeafNode::from_page(self.storage.page(current_page)?)?;
+                        cell_count = next.cell_count() as usize;
+                        next_leaf = next.next_leaf();
+                    }
+                    let exhausted = cell_count == 0;
                     return Ok(Cursor {
                         storage: self.storage,
                         root_page: self.root_page,
@@ -364,7 +377,22 @@ impl<'a> BTreeReader<'a> {
                         SearchResult::NotFound(idx) => idx,
                     };
 
-                    let exhausted = index >= leaf.cell_count() as usize;
+                    // The first entry >= key may be in a later leaf: the key is above every
+                    // entry of the leaf it was routed to, or that leaf has been emptied.
+                    let mut index = index;
+                    let mut cell_count = leaf.cell_count() as usize;
+                    let mut next_leaf = leaf.next_leaf();
+                    let mut hops = 0u32;
+                    while index >= cell_count && next_leaf != 0 && next_leaf < self.storage.page_count() {
+                        hops += 1;
+                        ensure!(hops <= self.storage.page_count(), "leaf chain does not end (cycle at page {})", current_page);
+                        current_page = next_leaf;
+                        index = 0;
+                        let next = LeafNode::from_page(self.storage.page(current_page)?)?;
+                        cell_count = next.cell_count() as usize;
+                        next_leaf = next.next_leaf();
+                    }
+                    let exhausted = index >= cell_count;
                     return Ok(Cursor {
                         storage: self.storage,
                         root_page: self.root_page,
@@ -1273,8 +1301,21 @@ impl<'a, S: Storage> BTree<'a, S> {
 
             match header.page_type() {
                 PageType::BTreeLeaf => {
+                    // an emptied leftmost leaf does not end the enumeration: skip to the first
+                    // leaf that holds an entry
                     let leaf = LeafNode::from_page(page_data)?;
-                    let exhausted = leaf.cell_count() == 0;
+                    let mut cell_count = leaf.cell_count() as usize;
+                    let mut next_leaf = leaf.next_leaf();
+                    let mut hops = 0u32;
+                    while cell_count == 0 && next_leaf != 0 && next_leaf < self.storage.page_count() {
+                        hops += 1;
+                        ensure!(hops <= self.storage.page_count(), "leaf chain does not end (cycle at page {})", current_page);
+                        current_page = next_leaf;
+                        let next = LeafNode::from_page(self.storage.page(current_page)?)?;
+                        cell_count = next.cell_count() as usize;
+                        next_leaf = next.next_leaf();
+                    }
+                    let exhausted = cell_count == 0;
                     return Ok(Cursor {
                         storage: self.storage,
                         root_page: self.root_page,
@@ -1315,7 +1356,22 @@ impl<'a, S: Storage> BTree<'a, S> {
                         SearchResult::NotFound(idx) => idx,
                     };
 
-                    let exhausted = index >= leaf.cell_count() as usize;
+                    // The first entry >= key may be in a later leaf: the key is above every
+                    // entry of the leaf it was routed to, or that leaf has been emptied.
+                    let mut index = index;
+                    let mut cell_count = leaf.cell_count() as usize;
+                    let mut next_leaf = leaf.next_leaf();
+                    let mut hops = 0u32;
+                    while index >= cell_count && next_leaf != 0 && next_leaf < self.storage.page_count() {
+                        hops += 1;
+                        ensure!(hops <= self.storage.page_count(), "leaf chain does not end (cycle at page {})", current_page);
+                        current_page = next_leaf;
+                        index = 0;
+                        let next = LeafNode::from_page(self.storage.page(current_page)?)?;
+                        cell_count = next.cell_count() as usize;
+                        next_leaf = next.next_leaf();
+                    }
+                    let exhausted = index >= cell_count;
                     return Ok(Cursor {
                         storage: self.storage,
                         root_page: self.root_page,
@@ -1435,14 +1491,31 @@ impl<'a, S: Storage + ?Sized> Cursor<'a, S> {
         self.current_page = next_page;
         self.current_index = 0;
 
-        let next_page_data = self.storage.page(self.current_page)?;
-        let next_leaf = LeafNode::from_page(next_page_data)?;
-        if next_leaf.cell_count() == 0 {
-            self.exhausted = true;
-            return Ok(false);
+        // emptied leaves are skipped, they do not end the enumeration
+        let mut hops = 0u32;
+        loop {
+            hops += 1;
+            ensure!(hops <= page_count, "leaf chain does not end (cycle at page {})", self.current_page);
+            let next_page_data = self.storage.page(self.current_page)?;
+            let next_leaf = LeafNode::from_page(next_page_data)?;
+            if next_leaf.cell_count() > 0 {
+                return Ok(true);
+            }
+            let following = next_leaf.next_leaf();
+            if following == 0 {
+                self.exhausted = true;
+                return Ok(false);
+            }
+            if following >= page_count {
+                bail!(
+                    "corrupt next_leaf pointer: page {} has next_leaf={} but page_count={}",
+                    self.current_page,
+                    following,
+                    page_count
+                );
+            }
+            self.current_page = following;
         }
-
-        Ok(true)
     }
 
     pub fn prev(&mut self) -> Result<bool> {
